@@ -38,6 +38,7 @@ structure Case where
   stages : Array Nat := #[]
   err : Option String := none
   latches : Nat := 0
+  memRegs : List String := []   -- memory class: (reset value, enable) combination of every backward-retimed register
   hn : Std.HashMap Nat GNode := {}
   tn : Std.HashMap Nat GNode := {}
   stim : Array (Array String) := #[]
@@ -65,6 +66,8 @@ structure Stats where
   cls : Std.HashMap String Nat := {}
   nHist : Std.HashMap String Nat := {}
   resetHist : Std.HashMap String Nat := {}
+  memRegHist : Std.HashMap String Nat := {}
+  enLowAfterReset : Nat := 0   -- cases in which an enable / stall input is low in the cycles directly after reset (cycles 0 and 1)
 
 def kvOf (toks : List String) (key : String) : String :=
   match toks.find? (fun t => t.startsWith (key ++ "=")) with
@@ -132,6 +135,9 @@ def finishCase (c : Case) (st0 : Stats) : IO Stats := do
     fail "PROPFAIL" s!"what=design-rejected msg={e}"
     return { st with diffs := st.diffs + 1, errors := st.errors + 1, propfails := st.propfails + 1 }
   for n in c.stages do st := { st with nHist := bump st.nHist s!"N{n}" }
+  for k in c.memRegs do st := { st with memRegHist := bump st.memRegHist k }
+  if c.stim.size >= 2 && c.enPins.any (fun p => (c.stim[0]!).getD p "1" == "0" && (c.stim[1]!).getD p "1" == "0") then
+    st := { st with enLowAfterReset := st.enLowAfterReset + 1 }
   if c.latches > 0 then st := { st with latchCases := st.latchCases + 1 }
   -- groups an output depends on (bit mask); designs without a group use pseudo group 0 = all data pins
   let pinsOf (g : Nat) : List Nat :=
@@ -246,6 +252,9 @@ partial def loop (h : IO.FS.Stream) (c : Case) (st : Stats) : IO Stats := do
     loop h { c with unreset := c.unreset || unres, hints := c.hints + (if hint then 1 else 0) } st
   | "out" :: _ :: rest =>
     loop h { c with outs := c.outs.push { step := (kvOf rest "step").toNat!, dep := (kvOf rest "dep").toNat!, ffd := (kvOf rest "ffd").toNat!, ureg := (kvOf rest "ureg").toNat! } } st
+  | "memreg" :: rest =>
+    let key := (if kvOf rest "rst" == "-" then "noreset" else "reset") ++ "_" ++ (if kvOf rest "en" == "-1" then "noenable" else "enable")
+    loop h { c with memRegs := key :: c.memRegs } st
   | "stages" :: _ :: n :: _ => loop h { c with stages := c.stages.push n.toNat! } st
   | "error" :: rest => loop h { c with err := some (" ".intercalate rest) } st
   | "info" :: rest => loop h { c with latches := (kvOf rest "latches").toNat! } st
@@ -266,4 +275,4 @@ partial def loop (h : IO.FS.Stream) (c : Case) (st : Stats) : IO Stats := do
 
 def main : IO Unit := do
   let st ← loop (← IO.getStdin) {} {}
-  IO.println s!"SUMMARY \{\"cases\":{st.cases},\"ops\":{st.ops},\"diffs\":{st.diffs},\"propfails\":{st.propfails},\"rejected_designs\":{st.errors},\"latency_checks\":{st.latChecks},\"latency_skipped\":{st.latSkipped},\"latency_any\":{st.latAny},\"cycles\":{st.cycles},\"stall_cycles\":{st.stallCycles},\"cases_with_holding_circuit\":{st.latchCases},\"hints\":{st.hints},\"twin_undefined_hinted_defined\":{st.undefRefined},\"autonomous_checked_against_lag_twin\":{st.lagChecked},\"autonomous_lag_visible\":{st.lagVisible},\"reset_edge_sampling_cases\":{st.resetEdgeCases},\"hist\":\{\"class\":{jsonOfMap st.cls},\"stages\":{jsonOfMap st.nHist},\"reset\":{jsonOfMap st.resetHist}}}"
+  IO.println s!"SUMMARY \{\"cases\":{st.cases},\"ops\":{st.ops},\"diffs\":{st.diffs},\"propfails\":{st.propfails},\"rejected_designs\":{st.errors},\"latency_checks\":{st.latChecks},\"latency_skipped\":{st.latSkipped},\"latency_any\":{st.latAny},\"cycles\":{st.cycles},\"stall_cycles\":{st.stallCycles},\"cases_with_holding_circuit\":{st.latchCases},\"hints\":{st.hints},\"twin_undefined_hinted_defined\":{st.undefRefined},\"autonomous_checked_against_lag_twin\":{st.lagChecked},\"autonomous_lag_visible\":{st.lagVisible},\"reset_edge_sampling_cases\":{st.resetEdgeCases},\"cases_enable_low_after_reset\":{st.enLowAfterReset},\"hist\":\{\"backward_retimed_registers\":{jsonOfMap st.memRegHist},\"class\":{jsonOfMap st.cls},\"stages\":{jsonOfMap st.nHist},\"reset\":{jsonOfMap st.resetHist}}}"
